@@ -916,7 +916,11 @@ func (it *Interp) step(i int, op *Op) {
 			}
 			for u := 0; u < 3; u++ {
 				val := sdk.NewIntFromBigInt(new(big.Int).Mul(big.NewInt(int64((u+1)*(op.R+1+variant))), pow10(18)))
-				hs.List = append(hs.List, &otypes.Holder{Address: sim.ExtUser(u).Hex()[2:], Value: val})
+				addr := sim.ExtUser(u).Hex()[2:]
+				if u == 2 && op.R%2 == 1 {
+					addr = "0x" + addr // an entry spelled with the prefix (admissible; look-ups strip the prefix, so it never matches)
+				}
+				hs.List = append(hs.List, &otypes.Holder{Address: addr, Value: val})
 			}
 			if op.N >= 2 && vi%2 == 1 {
 				// the same holders listed in another order
